@@ -162,7 +162,7 @@ def rand_problem(rng, nmax=5, kmax=5, head_left=None, nbest=1, unary=True, beta=
         for row in tag:
             b = max(range(K), key=lambda c: row[c])
             for c in range(K):
-                if c != b and rng.random() < 0.4:
+                if c != b and rng.random() < (0.4 if underflow < 0.5 else 0.7):
                     row[c] = -rng.randint(840, 1040) / 8.0
     use_beta = beta if beta is not None else rng.random() < 0.4
     theta_odd = rng.choice([1, 3, 7, 15, 31, 63]) if use_beta else None
